@@ -104,6 +104,9 @@ func (d *delegate) Dump(uint32) []byte     { return nil }
 var primaryDelegate = &delegate{}
 var altDelegate = &delegate{}
 
+// Rebind routes the shared bus back to the memory of `p` (after another Primary was created in between).
+func Rebind(p *Primary) { primaryDelegate.cur = p.Mem }
+
 type Primary struct {
 	CPU *cpu65c816.CPU
 	Mem *Mem
@@ -119,8 +122,25 @@ func NewPrimary(mem *Mem) *Primary {
 	}
 	primaryDelegate.cur = mem
 	c, _ := cpu65c816.New(sharedBus)
+	// the exported constructors are all exercised: every 4th CPU is made by InitFrom out of a CPU that has already
+	// executed an instruction (on a scratch memory)
+	newPrimaryCount++
+	if newPrimaryCount%4 == 0 {
+		primaryDelegate.cur = NewMem(7)
+		donor, _ := cpu65c816.New(sharedBus)
+		donor.M, donor.X = 1, 1
+		func() {
+			defer func() { recover() }()
+			donor.Step()
+		}()
+		c = &cpu65c816.CPU{}
+		c.InitFrom(donor, sharedBus)
+		primaryDelegate.cur = mem
+	}
 	return &Primary{c, mem}
 }
+
+var newPrimaryCount, newAltCount int
 
 func (p *Primary) Set(r Regs) {
 	c := p.CPU
@@ -150,7 +170,7 @@ func (p *Primary) Step() (cycles int, stopped bool, panicked string) {
 
 // ---- alternative ----
 
-var sharedAlt *cpualt.CPU
+var sharedAlt, sharedAltCopy *cpualt.CPU
 
 type Alt struct {
 	CPU *cpualt.CPU
@@ -166,6 +186,16 @@ func NewAlt(mem *Mem) *Alt {
 	}
 	altDelegate.cur = mem
 	c := sharedAlt
+	// every 3rd case runs on a CPU made by InitFrom out of the shared CPU, which has executed before (the copy shares the
+	// bus closures, which read through altDelegate)
+	newAltCount++
+	if newAltCount%3 == 0 && newAltCount > 3 {
+		if sharedAltCopy == nil || newAltCount%300 == 0 {
+			sharedAltCopy = &cpualt.CPU{}
+			sharedAltCopy.InitFrom(sharedAlt)
+		}
+		c = sharedAltCopy
+	}
 	c.OnWDM, c.OnPC = nil, nil
 	return &Alt{c, mem}
 }
